@@ -188,6 +188,11 @@ def h_config_isolation(ctx):
     for s, key in (OTHERS if not quick else OTHERS[:3]):
         if s != section:
             cfg.setdefault(s, {})[key] = ctx.int("%s_%s" % (s.replace("-", "_"), key), 1)
+    # another linter's own `ignore` list that happens to match the subject's files: it excuses files from THAT linter only
+    others = [s for s in ("srp", "nesting", "magic-numbers", "stateless-class") if s != section][:3]
+    ig = ctx.pick("ignore_list_in_the_section_of", ("none",) + tuple(others))
+    if ig != "none":
+        cfg.setdefault(ig, {})["ignore"] = ctx.pick("ignore_patterns", (["src/"], ["**/*.py", "**/*.ts", "**/*.rs", "**/*.js"], [n for n in names]))
     # stray top-level keys that belong to no linter section (global settings, leftovers): no linter reads them as its own
     if ctx.flag("stray_top_level_keys"):
         cfg.update({"enabled": False, "min_continues": 9, "max_nesting_depth": 1, "max_methods": 1, "allowed_numbers": [3975], "output_format": "text"})
